@@ -34,6 +34,8 @@ type Solver struct {
 	declared  map[string]*Term
 	apps      []*Term // abstracted unicode predicate/function applications of this scope (CEGAR)
 	NLemmas   int
+	recent    []string
+	nerr      int
 	scope     bool              // a path scope is open
 	baseSyms  map[string]uint16 // symbols declared at base level (persist across paths)
 	baseApps  map[string]bool   // "fn|sym" applications defined at base level with their full definition
@@ -91,6 +93,10 @@ func (s *Solver) Close() {
 func (s *Solver) send(str string) {
 	if s.logf != nil {
 		s.logf.WriteString(str)
+	}
+	s.recent = append(s.recent, str)
+	if len(s.recent) > 400 {
+		s.recent = s.recent[200:]
 	}
 	s.in.WriteString(str)
 }
@@ -223,10 +229,10 @@ func (s *Solver) define(t *Term) {
 		if tt.op == OpPred || tt.op == OpFn32 {
 			// abstracted: an unconstrained constant refined by range lemmas (see Check)
 			s.apps = append(s.apps, tt)
-			s.send(fmt.Sprintf("(declare-const u%d %s)\n", tt.id, sortOf(tt.w)))
+			s.send(fmt.Sprintf("(declare-const u!%d %s)\n", tt.id, sortOf(tt.w)))
 			continue
 		}
-		s.send(fmt.Sprintf("(define-fun t%d () %s %s)\n", tt.id, sortOf(tt.w), smtDef(tt)))
+		s.send(fmt.Sprintf("(define-fun t!%d () %s %s)\n", tt.id, sortOf(tt.w), smtDef(tt)))
 	}
 }
 
@@ -358,6 +364,14 @@ func (s *Solver) checkOnce(symTerms []*Term, extra []*Term) (SatResult, []uint64
 		if strings.HasPrefix(line, "(error") {
 			sawErr = true
 			fmt.Fprintln(os.Stderr, "solver error:", line)
+			s.nerr++
+			if s.nerr <= 2 {
+				n := len(s.recent)
+				if n > 60 {
+					n = 60
+				}
+				fmt.Fprintln(os.Stderr, "recent solver input:\n"+strings.Join(s.recent[len(s.recent)-n:], ""))
+			}
 		}
 	}
 	if sawErr {
